@@ -58,6 +58,12 @@ CLAIMED = {
  "C12": ("smx", SMX,
          "Timers are pending operations fired by the explorer in every order and subset (bounded non-default scheduling choices) for all timing shapes (wall / monotonic / both) x minimum wait (none, 7 s, 0 s) x policy answers (allowed / too soon) x optional control request over 2-3 loop iterations, and in the reboot wait with the reboot refused once or twice; log invariants: one timing question per wait, announced unchanged, exactly the timers it prescribes, an unrequested decision or ping only after all of them fired (and it does begin once they have), the reboot question re-asked only after its 30-minute timer or an on-demand request.",
          "Timer completion = flag + waker call by the harness; deviation bound 2/3.", "3/C12"),
+ "C05": ("smx", SMX,
+         "Histories of 2-3 loop iterations, each triggered by timers / a scheduled request / an on-demand request (exhaustive), with bounded non-default environment answers among 19 check decisions (both positive kinds x all parameter combinations, three negatives), server answers incl. retries, 3 install decisions, plan errors, install results, reboot-needed and four reboot-allowed sequences (incl. an on-demand request and a scheduled request during the wait) run on the real state machine; invariants over the single call log: every wire request inside an allowed check and carrying exactly the returned parameters (event reports included), installer only after approval of that very plan, reboot only after a clean install + needed + most recent 'yes', on-demand reboot question only with an on-demand source; every invalid app set must end the stream with zero environment calls.",
+         "Deviation bound 3/4 on environment answers; one-shot path bypasses the check decision by design.", "3/C05"),
+ "C13": ("smx", SMX,
+         "(generator) every program over 8 operations up to length 4-6 runs on the real async_generator for 5 adaptors under a controlled executor: poll-when-woken plus bounded deviations (spurious polls, other completion orders, early drop) and extra polls after the end; the received sequence must equal the reference (each item once, in order, one completion, then end, is_terminated consistent), the next program step may start only after the consumer took the yielded items, every completion must wake the task, no deadlock; (state machine) update + install with 0-3 progress values, all operations blocking, delayed and spurious consumer polls: progress in order before the outcome, request / installer / reboot only after the consumer took the corresponding state event, acknowledgement only after receipt, no lost wake-up, no deadlock.",
+         "Consumer modelled as a `while let Some(..) = next().await` loop; deviation bounds as in the evidence.", "3/C13"),
 }
 
 PENDING_REASON = "check under construction in this round (design in DESIGN.md section 3); not claimed until its machinery is committed"
